@@ -159,6 +159,12 @@ impl VerifKademlia {
         Self(kademlia)
     }
 
+    /// Every pending peer of a `FIND_NODE`-based lookup is stale (not counted towards the
+    /// parallelism factor) as soon as any time has passed.
+    pub fn verif_zero_peer_timeout(&mut self) {
+        self.0.engine.verif_force_peer_timeout(std::time::Duration::ZERO);
+    }
+
     /// The unmodified event loop.
     pub async fn run(self) -> crate::Result<()> {
         self.0.run().await
